@@ -524,8 +524,119 @@ def _overflows(s):
         return True
 
 
+# ---------------------------------------------------------------- (d) effective values across several loads in one process
+EFF_SPECS = ["10%", "50%", "1%", "99%", "37%", "100%", "1536M", "1.5G", "1.5G 32K", "2048", "32K", "3G 1M 7K", "1", "0.5G"]
+
+
+def eff_threshold(spec, total):
+    st, val = C.read_size_or_percent(spec, total)
+    assert st == C.VALID, (spec, st)
+    return val
+
+
+def eff_cases(rng, n, seed):
+    """memory_above with size / percent thresholds is loaded several times in one process (base config at start-up, drop-ins
+    later) while /proc/meminfo changes in between; every load must evaluate `N%` against the MemTotal of its own load time and
+    sizes exactly, which is observed end-to-end: usage is placed one byte around every threshold and the action behind the
+    detector either runs or not."""
+    out = []
+    for i in range(n):
+        totals_kb = [rng.choice([16 << 20, (2 << 20) + 3, 123456789, 8 << 20, (1 << 21) - 1, 4000001]) for _ in range(3)]
+        while totals_kb[1] == totals_kb[0]:
+            totals_kb[1] = rng.choice([16 << 20, 8 << 20, 123456789, 4000001])
+        anon = rng.random() < 0.3
+        arg = "threshold_anon" if anon else "threshold"
+        loc = rng.random() < 0.5
+
+        def det(spec):
+            a = {"cgroup": "wl/a", arg: spec, "duration": "0"}
+            if loc:
+                a["meminfo_location"] = "/proc/meminfo"
+            if anon and rng.random() < 0.5:
+                a["threshold"] = "1"  # ignored when threshold_anon is given
+            return {"name": "memory_above", "args": a}
+
+        loads = [{"tag": None, "tick": -1, "spec": rng.choice(EFF_SPECS), "total": totals_kb[0] * 1024, "act": "base"}]
+        nticks = rng.randint(10, 14)
+        t1 = rng.randint(1, 3)
+        t2 = rng.randint(t1 + 2, t1 + 5)
+        loads.append({"tag": "e1.json", "tick": t1, "spec": rng.choice(EFF_SPECS[:6] if i % 2 else EFF_SPECS), "total": totals_kb[1] * 1024, "act": "d1"})
+        loads.append({"tag": rng.choice(["e1.json", "e2.json"]), "tick": t2, "spec": rng.choice(EFF_SPECS), "total": totals_kb[2] * 1024, "act": "d2"})
+        for l in loads:
+            l["T"] = eff_threshold(l["spec"], l["total"])
+        cfg = {"rulesets": [{"name": "r0", "drop-in": {"detectors": True, "actions": True}, "post_action_delay": "0",
+                             "detectors": [["g", det(loads[0]["spec"])]], "actions": [W.act("base")]}]}
+        points = []
+        for l in loads:
+            t = l["T"]
+            lo, hi = int(t), -int(-t)
+            points += [lo - 1, hi + 1, lo, max(0, lo - 4096), hi + 4096]
+        ticks = []
+        usage = []
+        for t in range(nticks):
+            u = max(0, rng.choice(points))
+            usage.append(u)
+            st = {"anon": u} if anon else {"anon": rng.randint(0, u) if u else 0}
+            ops = [{"op": "write", "cg": "wl/a", "file": "memory.current", "text": "%d\n" % (rng.randint(0, 1 << 36) if anon else u)},
+                   {"op": "write", "cg": "wl/a", "file": "memory.stat", "text": W.memstat(st)}]
+            tk = {"step_ns": 10**9, "ops": ops}
+            for l in loads[1:]:
+                if l["tick"] == t:
+                    ops.append({"op": "write", "proc": "meminfo", "text": W.meminfo(mem_total_kb=l["total"] // 1024)})
+                    tk["dropins"] = [{"op": "add", "tag": l["tag"], "config": {"rulesets": [
+                        {"name": "r0", "detectors": [["g", det(l["spec"])]], "actions": [W.act(l["act"])]}]}}]
+            ticks.append(tk)
+        cgs = {"/": W.root_cgroup(), "wl/a": W.cgroup(current=0)}
+        scn = {"id": "C12-eff-%d-%d" % (seed, i), "interval": 1, "config": cfg, "cgroups": cgs, "proc": W.proc(mem_total_kb=totals_kb[0]),
+               "ticks": ticks, "scripts": {}}
+        out.append((scn, loads, usage, anon))
+    return out
+
+
+def judge_effective(v, tier, seed):
+    rng = random.Random(seed * 13 + 124)
+    cs = eff_cases(rng, 150 if tier != "thorough" else 2500, seed)
+    results = core.run_scenarios([c[0] for c in cs], flavor="asan", mode="sim")
+    from oracles import engine
+    judged = 0
+    for (scn, loads, usage, anon), res in zip(cs, results):
+        cr = core.classify_crash(res) if res.crashed else core.exception_outcome(res)
+        if cr:
+            v.bad("effective-crash:" + cr[0], cr[1], cr[2])
+            continue
+        _, ticks = engine.split_ticks(res.events)
+        applied = {(e["tag"]): e["ok"] for e in res.events if e.get("ev") == "dropin_result" and e["op"] == "add"}
+        for l in loads[1:]:
+            if not applied.get(l["tag"]):
+                v.bad("effective-load-refused", "", "drop-in %s with memory_above %s was not applied (%s)" % (l["tag"], l["spec"], applied))
+        if len(ticks) != len(usage):
+            v.bad("effective-ticks-missing", "", "%d ticks of %d" % (len(ticks), len(usage)))
+            continue
+        for ti, evs in enumerate(ticks):
+            ran = set(e["id"] for e in evs if e.get("ev") == "plugin" and e["m"] == "run" and e["kind"] == "act")
+            active = [loads[0]]
+            for l in loads[1:]:
+                if l["tick"] <= ti:
+                    active = [a for a in active if a["tag"] != l["tag"]] + [l]
+            for l in active:
+                t, u = l["T"], usage[ti]
+                if int(t) < u < -int(-t) + 1 and t != int(t):
+                    v.count("dontcare_fractional_threshold")
+                    continue
+                want = u > t
+                judged += 1
+                if want != (l["act"] in ran):
+                    v.bad("effective-threshold", "memory_above:" + ("percent" if l["spec"].endswith("%") else "size"),
+                          "%s tick %d: memory_above %s=%r loaded (%s) while MemTotal was %d bytes => threshold %s bytes; %s usage %d => should %s, but the action behind it %s (loads in this process: %s)" % (
+                              scn["id"], ti, "threshold_anon" if anon else "threshold", l["spec"], "base config" if l["tag"] is None else "drop-in %s at tick %d" % (l["tag"], l["tick"]),
+                              l["total"], t, "anon" if anon else "memory.current", u, "fire" if want else "not fire", "ran" if l["act"] in ran else "did not run",
+                              [(x["tag"], x["tick"], x["spec"], x["total"]) for x in loads]))
+    v.count("effective_threshold_judgements", judged)
+    return judged > 0, judged
+
+
 def cases(seed, tier):
-    for part in ("totality", "validity", "numbers"):
+    for part in ("totality", "validity", "numbers", "effective"):
         yield core.Case("C12-" + part, [], {"part": part, "tier": tier, "seed": seed}, driver="custom")
 
 
@@ -536,7 +647,7 @@ def run_batch(driver, flavor, scns):
 def judge(case, results):
     v = core.Verdict()
     m = case.meta
-    fn = {"totality": judge_totality, "validity": judge_validity, "numbers": judge_numbers}[m["part"]]
+    fn = {"totality": judge_totality, "validity": judge_validity, "numbers": judge_numbers, "effective": judge_effective}[m["part"]]
     nt, n = fn(v, m["tier"], m["seed"])
     v.count("inputs:" + m["part"], n)
     v.nontrivial = nt
